@@ -1,8 +1,10 @@
 package kvh
 
 import (
+	"encoding/json"
 	"fmt"
 	"os"
+	"path/filepath"
 	"runtime/metrics"
 	"sync/atomic"
 	"time"
@@ -19,6 +21,23 @@ var inFlight atomic.Pointer[InFlight]
 
 // SetInFlight registers (or with nil clears) the case in flight.
 func SetInFlight(f *InFlight) { inFlight.Store(f) }
+
+// PersistCase writes a complete case to the worker's "current" file before it is executed, so that it survives
+// an unrecoverable death of the process (used by the concurrency checks, whose cases are known up front).
+// ClearPersisted removes it after normal completion.
+func PersistCase(property string, c any) {
+	e := GetEnv()
+	b, err := json.Marshal(c)
+	if err != nil {
+		return
+	}
+	_ = os.WriteFile(filepath.Join(e.Out, fmt.Sprintf("current-%s-%d.json", property, e.Shard)), b, 0o644)
+}
+
+func ClearPersisted(property string) {
+	e := GetEnv()
+	_ = os.Remove(filepath.Join(e.Out, fmt.Sprintf("current-%s-%d.json", property, e.Shard)))
+}
 
 // HeapLimit is the live-heap size beyond which the watchdog declares an
 // unbounded allocation. Every generated case works on at most a few MiB of
